@@ -170,4 +170,85 @@ theorem c13_struct_value_differs :
     V.beq (wireEval cfgStructValue 8 (.ptr 1)) (.call newSvcName [.call (mkName 0) [.arg (.basic 0)]]) = true ∧
     V.beq (migratedEval cfgStructValue 8) (.call newSvcName [.arg (.val 0)]) = true := by decide
 
+/-! ### the subset of configurations on which the migration is faithful (definitions only; proofs in `KV/WireProofs.lean`) -/
+
+mutual
+/-- the term contains no `.bot`: the fuel sufficed -/
+def V.noBot : V → Bool
+  | .bot => false
+  | .call _ as => V.noBotL as
+  | _ => true
+def V.noBotL : List V → Bool
+  | [] => true
+  | a :: as => V.noBot a && V.noBotL as
+end
+
+mutual
+/-- the term contains no `.missing`: wire itself resolved every type -/
+def V.noMissing : V → Bool
+  | .missing _ => false
+  | .call _ as => V.noMissingL as
+  | _ => true
+def V.noMissingL : List V → Bool
+  | [] => true
+  | a :: as => V.noMissing a && V.noMissingL as
+end
+
+def NoBot (v : V) : Prop := v.noBot = true
+def NoMissing (v : V) : Prop := v.noMissing = true
+instance (v : V) : Decidable (NoBot v) := inferInstanceAs (Decidable (v.noBot = true))
+instance (v : V) : Decidable (NoMissing v) := inferInstanceAs (Decidable (v.noMissing = true))
+
+/-- the types a provider-set item supplies to wire's solver (`Struct` supplies `T` and `*T`; a `Bind` supplies the interface) -/
+def supplied : Item → List Ty
+  | .func f => [f.result]
+  | .bind i _ => [.iface i]
+  | .structP n _ => [.val n, .ptr n]
+  | .fieldsOf _ _ fs => fs
+
+/-- the types an item asks the solver for, as written by the user (function parameters, struct fields).  The receiver of a
+    `FieldsOf` and the implementation of a `Bind` are constrained separately by `itemOk`. -/
+def consumed : Item → List Ty
+  | .func f => f.params
+  | .structP _ fs => fs
+  | _ => []
+
+/-- per-item restrictions.
+    * `Bind(new(I), new(impl))`: `impl` is a named type `T`/`*T` (otherwise `migrate` refuses), the **by-name lookup** of
+      `New<T>` among the package's functions succeeds, and the function it finds *is a provider listed in the set* whose result
+      type is exactly `impl`.  Real-world restriction: the bound implementation is provided by its conventional constructor
+      `New<T>`; any other provider (cf. `cfgBindByName`: `ProvideRepo`) is silently replaced by `New<T>`.
+    * `FieldsOf`: pointer form only — the migration always emits a `*T` receiver. -/
+def itemOk (c : Cfg) : Item → Bool
+  | .bind _ impl =>
+      match tyName impl with
+      | none => false
+      | some n =>
+        match c.pkgFuncs.find? (fun f => f.name == ctorName n) with
+        | some f => f.result == impl && c.items.contains (.func f)
+        | none => false
+  | .fieldsOf _ ptrForm _ => ptrForm
+  | _ => true
+
+/-- `t` is the value form `T` of some `wire.Struct(new(T), …)` in the set -/
+def structVal (c : Cfg) (t : Ty) : Bool :=
+  c.items.any fun | .structP n _ => t == .val n | _ => false
+
+/-- Decidable subset of configurations on which `kessoku migrate` is faithful to google/wire.
+    1. `itemOk` for every item (see there: `Bind` through the conventional constructor that is itself in the set; `FieldsOf`
+       in pointer form).
+    2. suppliers are unique: two *different* items never supply the same type.  This is wire's own "multiple bindings for
+       type" rejection; in particular an interface is bound at most once, a bound interface is not also the result of a
+       provider function or a `FieldsOf` field, and the constructor of a bound implementation is the only supplier of it.
+    3. injector arguments are not supplied by any item (wire: "multiple bindings"; kessoku would prefer the provider and drop
+       the argument, wire prefers the argument).
+    4. the value form `T` of a `wire.Struct(new(T), …)` is never asked for (not the injector's result, not a parameter of a
+       listed provider, not a field of a listed struct): the migration only emits the pointer form `*T`
+       (cf. `cfgStructValue`). -/
+def faithful (c : Cfg) : Bool :=
+  c.items.all (itemOk c)
+  && c.items.all (fun a => c.items.all fun b => a == b || (supplied a).all fun t => !(supplied b).contains t)
+  && c.args.all (fun t => c.items.all fun a => !(supplied a).contains t)
+  && (c.ret :: c.items.flatMap consumed).all (fun t => !structVal c t)
+
 end Wire
